@@ -131,7 +131,7 @@ func replaceIdent(s, from, to string) string {
 // RuleAP1: the value stored for a directive parameter is the unescaped lexeme text,
 // untouched.
 func RuleAP1(c *Ctx) {
-	sc := c.Run.Begin("AP1", "every value AppendParameter stores (SetNamedParameter / AppendUnnamedParameter) is exactly the string of the unescaped parameter bytes - no trimming, case folding or other transformation on any path", 2)
+	sc := c.Run.Begin("AP1", "every value AppendParameter stores (SetNamedParameter / AppendUnnamedParameter) is exactly the string of the unescaped parameter bytes - no trimming, case folding or other transformation on any path", 1)
 	defer sc.End()
 	ap := c.Func("directive", "Directive.AppendParameter")
 	fd := c.P.Decl(ap)
@@ -225,7 +225,7 @@ func RuleAP1(c *Ctx) {
 // truncates one truncates the other. A level popped from one and left on the other makes
 // every later lookup by position read the wrong level.
 func RulePF1(c *Ctx) {
-	sc := c.Run.Begin("PF1", "slice fields of one struct that are appended to (or truncated) side by side in some function are kept in lockstep by every function that appends to or truncates either of them", 2)
+	sc := c.Run.Begin("PF1", "slice fields of one struct that are appended to (or truncated) side by side in some function are kept in lockstep by every function that appends to or truncates either of them", 1)
 	defer sc.End()
 	type use struct {
 		fd   *ast.FuncDecl
